@@ -16,10 +16,21 @@
                                                              DgR metrics events #events #bad
                          dg_concat                           concatenation of such results
                          last_gauge k ds                     the last gauge datapoint of series k in ds
-     Model/MetricMap.v   receive_all empty_map ds            MetricMap.Receive folded over ds (what Run does) *)
+     Model/MetricMap.v   receive_all empty_map ds            MetricMap.Receive folded over ds (what Run does)
+     Model/LexState.v    lexstate                            the fields of the reused Lexer struct
+                         pmetric                             the fields of a pooled gostatsd.Metric
+                         run_line pf ns pool st line         Lexer.Run on struct state st: reset() (exactly its six
+                                                             assignments), Run's four assignments, the state functions
+                                                             reading / writing fields; pool = what MetricPool.Get has
+                                                             (Some stale = a recycled Metric with arbitrary fields)
+                         parser_view r                       Run's result as handleDatagram inspects it
+                         raw_of o                            the outcome o as Run's (metric, event, error) triple, the
+                                                             metric's TagsKey / Source / Timestamp as Metric.Reset leaves them
+                         run_lines_gen v resets st steps     one lexer over (namespace, pool, line) steps; v / resets
+                                                             select a variant of reset() / a pool without Metric.Reset *)
 From stdpp Require Import gmap.
-From GS Require Import Base.Bytes Model.Lexer Model.MetricMap Model.Datagram Model.LexMem
-  Proofs.Datagram Proofs.LexMem Proofs.DatagramMap.
+From GS Require Import Base.Bytes Model.Lexer Model.MetricMap Model.Datagram Model.LexMem Model.LexState
+  Proofs.Datagram Proofs.LexMem Proofs.DatagramMap Proofs.LexState.
 Local Open Scope N_scope.
 
 (* ---- the in-place write ---- *)
@@ -105,6 +116,58 @@ Theorem C05_datagram_total : forall pf cfg ip ts msg,
             dg_nevents r = N.of_nat (length (dg_events r)).
 Proof. exact parse_datagram_total. Qed.
 Print Assumptions C05_datagram_total.
+
+(* ---- the reused Lexer struct and the pooled Metric ---- *)
+
+(* Whatever the fields of the Lexer struct hold from earlier lines (ALL states, reachable or not)
+   and whatever stale values the pooled Metric carries, Run returns exactly what the stateless
+   [lex] says for this line: never a metric together with an event, no inherited tags, error,
+   sampling rate, lengths, positions, and a Metric whose remaining fields are clean. *)
+Theorem C05_lexer_state_independent : forall pf ns (pool : option pmetric) (st : lexstate) line,
+  snd (run_line pf ns pool st line) = raw_of (lex pf ns line).
+Proof. exact run_line_independent. Qed.
+Print Assumptions C05_lexer_state_independent.
+
+(* Hence one lexer reused for any sequence of lines (any namespaces, any pool contents), started
+   in any state, yields line by line what [lex] yields for each line alone. *)
+Theorem C05_lexer_fold : forall pf steps st,
+  run_lines pf st steps = map (fun '(ns, _, line) => raw_of (lex pf ns line)) steps.
+Proof. exact run_lines_independent. Qed.
+Print Assumptions C05_lexer_fold.
+
+(* The seeded change `l.tags = nil` removed from reset(): in the datagram
+   "a:1|c|#x\n_e{1,1}:t|x" the event, which alone has no tags, inherits the metric's tag. *)
+Theorem C05_reset_legacy_refuted :
+  let pf := fun _ : str => PFVal f64_one in
+  let l1 := [97;58;49;124;99;124;35;120] in                      (* a:1|c|#x *)
+  let l2 := [95;101;123;49;44;49;125;58;116;124;120] in          (* _e{1,1}:t|x *)
+  let ev tags := {| e_title := [116]; e_text := [120]; e_date := 0%Z; e_host := []; e_key := [];
+                    e_pri := 0; e_stype := []; e_alert := 0; e_tags := tags |} in
+  lex pf [] l2 = OEvent (ev []) /\
+  run_lines_gen pf ResetNoTags true zero_state [([], None, l1); ([], None, l2)]
+  = [raw_of (lex pf [] l1); RR None (Some (ev [[120]])) None].
+Proof. exact reset_no_tags_refuted. Qed.
+Print Assumptions C05_reset_legacy_refuted.
+
+(* Of the six assignments of reset(), `l.e = nil` is the only one the parser does not depend on:
+   without it Run may hand back a stale event NEXT TO a metric, and handleDatagram tests the error,
+   then the metric ([parser_view]).  (Dropping any of the other five -- start, pos, m, tags, err --
+   is refuted in Proofs/LexState.v: reset_no_*_refuted.) *)
+Theorem C05_reset_e_not_needed : forall pf ns (pool : option pmetric) (st : lexstate) line,
+  parser_view (snd (run_line_gen pf ResetNoE true ns pool st line)) = raw_of (lex pf ns line).
+Proof. exact run_line_no_e_harmless. Qed.
+Print Assumptions C05_reset_e_not_needed.
+
+(* MetricPool.Get without Metric.Reset: the lexer does not assign a set's Value, TagsKey, Source
+   or Timestamp, so a recycled Metric's stale values would come back (set line "s:m|s"). *)
+Theorem C05_pool_reset_legacy_refuted :
+  let pf := fun _ : str => PFVal f64_one in
+  let stale := PM [120] 77 f64_one [[116]] [107] [] [9] 5 (Some Counter) in
+  exists m, snd (run_line_gen pf ResetCurrent false [] (Some stale) zero_state [115;58;109;124;115])
+            = RR (Some m) None None /\
+            pm_value m = 77%Z /\ pm_tagskey m = [107] /\ pm_src m = [9] /\ pm_ts m = 5%Z /\ pm_tags m = [[116]].
+Proof. exact pool_no_reset_refuted. Qed.
+Print Assumptions C05_pool_reset_legacy_refuted.
 
 (* ---- source and receive time ---- *)
 
